@@ -85,6 +85,11 @@ def gen_ops(kind, K, ln, with_prep, small):
                 # the same object at several positions: later edits of one position must not show at the others
                 call("with", "with:alias_existing", ["elem", 0])
                 call("with", "with:alias_existing_insert", ["elem", ln - 1], _index=0, _insert=True)
+            # an element BUILT from keywords put at a position: whatever sits there (or next to it) contributes nothing
+            kwo = {"key": "k", "zs": ["list", [4]]} if nested == "Keyed" else ({"d": 9} if kind == "invs" else {"ys": ["list", [4]]})
+            for i in idx:
+                call("with", "with:kw_at_index", _index=i, **kwo)
+                call("with", "with:kw_insert_at_index", _index=i, _insert=True, **kwo)
             for i in idx:
                 call("update", "update:kw_by_index", i, _by_index=True, **{fld: 4})
                 call("transform", "transform:attrfn_by_index", i, _by_index=True, **{fld: FN("inc")})
